@@ -5,6 +5,7 @@ pub mod json;
 pub mod oracle;
 pub mod props;
 pub mod rng;
+pub mod rt;
 pub mod scen;
 
 use engine::{Cfg, Strategy};
@@ -72,6 +73,8 @@ pub fn swarm_cfg(seed: u64, sw: &Swarm) -> Cfg {
         c.stall_budget = r.range(1, 3) as u32;
         c.stall_ppm = (c.stall_budget as u64 * 1_000_000 / sw.est_len.max(1)).min(200_000) as u32;
         c.stall_max_ns = sw.stall_max_ns;
+        // a stalled thread resumes although others spin on it
+        c.tick_ns = 25;
     }
     if sw.spurious_park && r.chance(1, 3) {
         c.spurious_park_pm = *r.pick(&[20, 100]);
